@@ -247,20 +247,28 @@ pub fn dkz0(signal: &SignalBeam, pump: &PumpBeam, cs: &CrystalSetup) -> Option<f
   }
 }
 
-/// the simplex search of optimum_poling_period replayed through the public nelder_mead_1d / delta_k / try_new_optimum
-pub fn nm_period_replay(signal: &SignalBeam, pump: &PumpBeam, cs: &CrystalSetup, z: f64) -> Option<f64> {
+/// the simplex search of optimum_poling_period replayed through the public nelder_mead_1d / delta_k / try_new_optimum,
+/// with the table of its cost evaluations (x, cost) in evaluation order
+pub fn nm_period_replay_traced(signal: &SignalBeam, pump: &PumpBeam, cs: &CrystalSetup, z: f64) -> Option<(f64, Vec<(f64, f64)>, f64, f64)> {
+  let table: std::cell::RefCell<Vec<(f64, f64)>> = std::cell::RefCell::new(Vec::new());
+  let guess = (std::f64::consts::TAU / z).abs();
   let r = guarded_loc(|| {
     let sign: Sign = z.into();
     let pm = |period: f64| {
       let pp = PeriodicPoling::On { period: period * M, sign, apodization: Apodization::Off };
       let idler = IdlerBeam::try_new_optimum(signal, pump, cs, &pp).unwrap();
       let dk = delta_k(signal.frequency(), idler.frequency(), signal, &idler, pump, cs, &pp);
-      (*(dk * M / RAD)).z.abs()
+      let c = (*(dk * M / RAD)).z.abs();
+      table.borrow_mut().push((period, c));
+      c
     };
-    let guess = std::f64::consts::TAU / z;
-    spdcalc::math::nelder_mead_1d(pm, (guess.abs(), guess.abs() + 1e-6), 1000, f64::MIN_POSITIVE, *(cs.length / M), 1e-12)
+    spdcalc::math::nelder_mead_1d(pm, (guess, guess + 1e-6), 1000, f64::MIN_POSITIVE, *(cs.length / M), 1e-12)
   });
-  r.ok()
+  r.ok().map(|p| (p, table.into_inner(), guess, guess + 1e-6))
+}
+
+pub fn nm_period_replay(signal: &SignalBeam, pump: &PumpBeam, cs: &CrystalSetup, z: f64) -> Option<f64> {
+  nm_period_replay_traced(signal, pump, cs, z).map(|r| r.0)
 }
 
 /// The shadow construction.  Returns {"steps": [...], "oracles": {...}, "shadow": setup or null}
@@ -306,7 +314,13 @@ pub fn shadow(cfg: &SPDCConfig) -> Value {
         let mut nm = Value::Null;
         if let Some(z) = z {
           if z.is_finite() && z != 0. && !(ls <= lp) {
-            nm = match nm_period_replay(&signal, &pump, &cs0, z) { Some(p) => fx_or_null(p), None => Value::Null };
+            if let Some((p, table, g0, g1)) = nm_period_replay_traced(&signal, &pump, &cs0, z) {
+              nm = fx_or_null(p);
+              if table.len() <= 600 && table.iter().all(|(x, c)| x.is_finite() && !c.is_nan()) {
+                orc.insert("nm_period_trace".into(), json!({"g0": fx(g0), "g1": fx(g1), "min": fx(f64::MIN_POSITIVE), "max": fx(*(cs0.length / M)),
+                  "tol": fx(1e-12), "max_iter": 1000, "result": fx(p), "table": table.iter().map(|(x, c)| json!([fx(*x), fx(*c)])).collect::<Vec<_>>()}));
+              }
+            }
           }
         }
         orc.insert("nm_period".into(), nm);
